@@ -990,6 +990,9 @@ int main(int argc, char** argv)
         if (renormalize > 0 && simulationstep%renormalize == 0) {
             // works on XProjection
             grid_t1->integrateAndNormalize();
+            // projection and integral shall describe the rescaled grid
+            grid_t1->updateXProjection();
+            grid_t1->integrate();
         } else {
             // works on XProjection
             grid_t1->integrate();
@@ -1125,6 +1128,9 @@ int main(int argc, char** argv)
         if (renormalize > 0 && simulationstep%renormalize == 0) {
             // works on XProjection
             grid_t1->integrateAndNormalize();
+            // projection and integral shall describe the rescaled grid
+            grid_t1->updateXProjection();
+            grid_t1->integrate();
         } else {
             // works on XProjection
             grid_t1->integrate();
